@@ -206,7 +206,11 @@ def main():
         if c['level'] == 'assertion':
             tree = dict((nd['n'], nd) for nd in c['tree'])
             rootnd = tree[c['root']]
-            if c.get('sealable') and (c['edits'] <= 1 or any(v['pinned'] != v['model'] for v in c['verdicts']) or chk.rng.random() < 0.15):
+            tree = dict((nd['n'], nd) for nd in c['tree'])
+            twin_ids = [tree[n]['id'] for n in c.get('sealable', [])]
+            same_id = len(twin_ids) == 2 and twin_ids[0] == twin_ids[1]       # plain and sealed assertion under one identifier
+            if c.get('sealable') and (c['edits'] <= 1 or same_id or any(v['pinned'] != v['model'] for v in c['verdicts'])
+                                      or chk.rng.random() < 0.15):
                 for n in sorted(c['sealable']):
                     t = dict(c)
                     t['enc'] = n
@@ -216,7 +220,20 @@ def main():
                         # carry over; the provenance of the accepted identity is judged
                         t['verdicts'] = [dict(v, mustReject=False, mustAccept=False) for v in c['verdicts']]
                     twins.append(t)
-    cases = cases + twins
+    # documents in which a genuine signature sits directly below the forged element "x": once more with an identifier string
+    # for "x" that extends the signed element's (independent of the rotation above)
+    idtwins = []
+    for c in cases:
+        tree = dict((nd['n'], nd) for nd in c['tree'])
+        hit = [tree[k2]['orig'] for nd in c['tree'] if nd['id'] == 'x' for k2 in nd['kids'] if tree[k2]['kind'] == 'Sig' and tree[k2]['orig'] in ('A', 'R')]
+        if hit:
+            want = 'extends_a' if 'A' in hit else 'extends_r'
+            if c['idstyle'] != want:
+                t = dict(c)
+                t['idstyle'] = want
+                t['tool'] = []
+                idtwins.append(t)
+    cases = cases + twins + idtwins
     nacc = 0
     tool_checked = 0
     for case, out, err in fw.pmap(replay, cases, init=spc.init_worker, chunk=8):
